@@ -15,6 +15,11 @@ Verdict(case, codes, detail) ==
 \* Report(case, codes, detail): TRUE always; prints iff codes is non-empty
 Report(case, codes, detail) == IF codes = {} THEN TRUE ELSE Verdict(case, codes, detail)
 
+\* DRIFT: the code and an implementation-shaped TRANSCRIPTION disagree.  Never a verdict (DESIGN section 5
+\* rule 2): it means "the model no longer mirrors the code" and is counted in the evidence.
+DriftReport(case, cond, what, detail) ==
+  IF cond THEN TRUE ELSE PrintT("DRIFT " \o ToJson([case |-> case, what |-> what, detail |-> detail]))
+
 \* acceptance: every recorded line was consumed (one state per line plus the initial state)
 Accepted(l) == l = NRec + 1
 =============================================================================
